@@ -10,6 +10,23 @@ DEFINITIONS AUTOMATIC TAGS::= BEGIN
 "#;
 const DUMMY_FOOTER: &str = r#"END"#;
 
+/// A literal is a complete module, if the keywords `DEFINITIONS` and `BEGIN`
+/// appear outside of comments. Anything else is treated as a list of assignments.
+fn has_module_header(asn: &str) -> bool {
+    let mut definitions = false;
+    let mut begin = false;
+    for line in asn.lines() {
+        // every second section of a line split at `--` is a comment
+        for code in line.split("--").step_by(2) {
+            for word in code.split(|c: char| !(c.is_ascii_alphanumeric() || c == '-')) {
+                definitions |= word == "DEFINITIONS";
+                begin |= word == "BEGIN";
+            }
+        }
+    }
+    definitions && begin
+}
+
 struct MacroInput {
     asn: LitStr,
 }
@@ -27,8 +44,8 @@ pub fn asn1(input: TokenStream) -> TokenStream {
     let config = parse_macro_input!(input as MacroInput);
 
     let literal_asn1 = match config.asn.value() {
-        v if v.contains("BEGIN") => v,
-        v => String::from(DUMMY_HEADER) + &v + DUMMY_FOOTER,
+        v if has_module_header(&v) => v,
+        v => String::from(DUMMY_HEADER) + &v + "\n" + DUMMY_FOOTER,
     };
 
     rasn_compiler::Compiler::<RasnBackend, _>::new()
